@@ -331,8 +331,9 @@ fn run_stage(t: &Tuple, stage: usize, dir: &std::path::Path, c: &Child, st: &mut
             let (ra, rb, _) = run_scheduled_pair(dir, c, c, "openw,writef,rename,flock,unlink", &choices);
             st.children += 1;
             st.overlaps_run += 1;
-            // both must end alike: hand on the less successful one
-            return if ra.exit.is_success() { ChildResult { stdout: ra.stdout, ..rb } } else { ra };
+            // If both succeed, or both fail, either stands for the pair. If exactly one fails cleanly (an implementation may refuse
+            // to write a file another live invocation is writing) the successful one is judged: its output must be right all the same.
+            return match (ra.exit.is_success(), rb.exit.is_success()) { (true, true) => ChildResult { stdout: ra.stdout, ..rb }, (true, false) if rb.exit.is_clean_failure() => ra, (false, true) if ra.exit.is_clean_failure() => rb, _ => ra };
         }
     }
     run_child(dir, c)
